@@ -81,6 +81,23 @@ Theorem C06_enumerator_oracle_ok : forall (H P : graph), gwf H -> gwf P -> oracl
 Proof. exact monos_on_oracle_ok. Qed.
 Print Assumptions C06_enumerator_oracle_ok.
 
+(** the premise of section 2, written out: the whole-graph call and every call "pattern
+    component into a host component that is large enough" return a duplicate-free listing
+    of exactly the valid monomorphisms *)
+Theorem C06_oracle_ok_meaning : forall (enum : list N -> list N -> list mapping) (H P : graph),
+  oracle_ok enum H P <->
+  (let L := enum (node_ids H) (node_ids P) in
+   (forall m, In m L -> is_mono H P m) /\
+   (forall m, is_mono H P m -> exists m', In m' L /\ Permutation m m') /\
+   NoDupA (@Permutation (N * N)) L) /\
+  (forall hc pc, In hc (comps H) -> In pc (comps P) -> length pc <= length hc ->
+   let L := enum hc pc in
+   (forall m, In m L -> is_mono_on H P hc pc m) /\
+   (forall m, is_mono_on H P hc pc m -> exists m', In m' L /\ Permutation m m') /\
+   NoDupA (@Permutation (N * N)) L).
+Proof. exact oracle_ok_meaning. Qed.
+Print Assumptions C06_oracle_ok_meaning.
+
 (** ** 2. Component-aware strategy, no limits (for every threshold from some T0 on).
     What the code does, in this order:
     - pattern has components, host has MORE components and strict_cc_count is set: [] (the
